@@ -14,7 +14,7 @@ from ..runner import HypPart, Stats, Violation
 ID = "C07"
 LEVEL = "exploration"
 RULE = (
-    "Generated units x values INCLUDING out-of-range integers. Part 'c': per case a build drawn from {guard-page build gcc "
+    "Generated units x values INCLUDING out-of-range integers (part 'stride': the same on arrays of padded structs whose in-memory size crosses 64 KiB, c.struct_packing_alignment 4/8). Part 'c': per case a build drawn from {guard-page build gcc "
     "-O2 / -O0, ASan+UBSan build (alignment check excluded)} x {standard, optimization mode when the schema is traditional}; "
     "the driver encodes into an exactly sized buffer placed flush against a PROT_NONE page (both placements: before the "
     "upper guard, after the lower guard) and decodes from such a buffer into an exactly sized struct; integer leaves are "
